@@ -225,6 +225,25 @@ def run(ctx):
                 e4.hist_lines(ctx, out, "random")
             broken += check_stream(ctx, "rnd_%d" % s, os.path.join(ctx.work, "rnd_%d.ops" % s),
                                    os.path.join(ctx.work, "rnd_%d.impl" % s), sample=(s == 0))
+        # option edge values: --tombstone-lifetime 0 / negative (tombstones never in force), --inactive-producer-timeout
+        # negative (every nsqd hidden). (inactive = 0 is a threshold: listed only at the very instant of the last PING,
+        # not observable live; tied by the strict `>` fact.) Theorems: C14Star.tombstone_lifetime_nonpositive_disables, …
+        edge = [("tomblife0", {"VERIF_E4_TOMBLIFE_S": 0}), ("tomblife-neg", {"VERIF_E4_TOMBLIFE_S": -7}),
+                ("inactive-neg", {"VERIF_E4_INACTIVE_S": -1})]
+        jobs = []
+        for k, (name, env) in enumerate(edge):
+            e = {"VERIF_N": ctx.budget(4, 20), "VERIF_LEN": 120, "VERIF_SHARD": 100 + k}
+            e.update(env)
+            jobs.append((binp, "TestVerifE4Random", e, 900))
+        res = e4.run_parallel(ctx, jobs, workers=len(edge))
+        for k, (rc, out) in enumerate(res):
+            if rc != 0:
+                ctx.log("option-edge leg %s failed:\n%s" % (edge[k][0], out[-1500:]))
+                broken.append("option-edge harness %s exit %s" % (edge[k][0], rc))
+                continue
+            e4.hist_lines(ctx, out, "option_edge_" + edge[k][0])
+            broken += check_stream(ctx, "edge_" + edge[k][0], os.path.join(ctx.work, "rnd_%d.ops" % (100 + k)),
+                                   os.path.join(ctx.work, "rnd_%d.impl" % (100 + k)))
         # concurrent histories, quiescent points
         rc, out = e4.run_leg(ctx, binp, "TestVerifE4Concurrent", {"VERIF_N": ctx.budget(15, 150), "VERIF_LEN": 40}, 900)
         if rc != 0:
